@@ -11,6 +11,7 @@ package main
 
 import (
 	"bytes"
+	"crypto/sha1"
 	"encoding/hex"
 	"fmt"
 	"os"
@@ -388,6 +389,170 @@ func contentsEdit(f []byte, i int, d *synth.Doc, s *synth.Signer) {
 	r.OracleOK()
 }
 
+// ---------- forged eContent under a detached SubFilter ----------
+type verdict struct {
+	ok      bool
+	status  model.SignatureStatus
+	reason  model.SignatureReason
+	docmod  int
+	si      synth.SigInfo
+	panicMs string
+}
+
+func verdictOf(f []byte, shift int) verdict {
+	infos, err := synth.Validate(f, shift)
+	if err != nil && strings.HasPrefix(err.Error(), "PANIC") {
+		return verdict{panicMs: err.Error()}
+	}
+	for _, si := range infos {
+		if si.Result != nil && !si.DTS {
+			return verdict{ok: true, status: si.Result.Status, reason: si.Result.Reason, docmod: si.Result.DocModified, si: si}
+		}
+	}
+	return verdict{}
+}
+
+func triS(d int) string {
+	switch d {
+	case model.False:
+		return "F"
+	case model.True:
+		return "T"
+	}
+	return "U"
+}
+
+func contentsArg(c *string) string {
+	if c == nil {
+		return "-"
+	}
+	return "v" + vh.Hex([]byte(*c))
+}
+
+// forgedCheck: a document whose signed-range bytes are NOT what the signer signed (D) but whose
+// CMS was given eContent must never get the genuine document's verdict or a better one.
+func forgedCheck(label string, genuine verdict, forged []byte, shift int, D, cmsContent []byte, kOK bool) {
+	vf := verdictOf(forged, shift)
+	in := map[string]any{"label": label, "shift": shift, "file": vh.Hex(forged)}
+	if vf.panicMs != "" {
+		r.OracleFail("c27-panic-validate", in, vf.panicMs)
+		return
+	}
+	if !vf.ok {
+		r.Count("e2e:forged-econtent-rejected-by-reader")
+		r.OracleOK()
+		return
+	}
+	r.Count("e2e:forged-econtent " + label + " docmodified-" + triS(vf.docmod))
+	same := genuine.ok && vf.status == genuine.status && vf.reason == genuine.reason && vf.docmod == genuine.docmod
+	if vf.docmod == model.False || vf.status == model.SignatureStatusValid || same {
+		r.OracleFail("c27-forged-econtent-accepted", in, fmt.Sprintf(
+			"signed-range bytes differ from what the signer signed, CMS carries eContent: genuine (status=%v reason=%v docModified=%s) forged (status=%v reason=%v docModified=%s)",
+			genuine.status, genuine.reason, triS(genuine.docmod), vf.status, vf.reason, triS(vf.docmod)))
+	} else {
+		r.OracleOK()
+	}
+	if kOK && vf.si.Arr != nil {
+		data := synth.Lenient(forged, vf.si.Arr)
+		h := sha1.Sum(data)
+		r.Case("docModifiedP7", []string{vh.Hex(D), vh.Bool(bytes.Equal(h[:], cmsContent)), "true", vh.Hex(cmsContent),
+			vh.Int(int64(len(forged))), vh.Hex(forged), ints64(vf.si.Arr), contentsArg(vf.si.Contents),
+			vh.Int(int64(vf.si.Increment)), "false"}, triS(vf.docmod))
+	}
+}
+
+func randPayload(n int) []byte {
+	p := make([]byte, n)
+	for j := range p {
+		p[j] = " BTETqQ0123456789.\n"[r.Rand.Intn(19)]
+	}
+	return p
+}
+
+func e2eForgedContent(s *synth.Signer) {
+	docs := r.Pick(6, 40)
+	for k := 0; k < docs; k++ {
+		sub := []string{"adbe.pkcs7.detached", "ETSI.CAdES.detached"}[k%2]
+		g, err := synth.Build(s, synth.Options{Payload: randPayload(5 + r.Rand.Intn(30)), SubFilter: sub})
+		if err != nil {
+			panic(err)
+		}
+		D := synth.Lenient(g.Bytes, g.ByteRange)
+		cms, _ := hex.DecodeString(g.Hex)
+		for _, shift := range []int{0, 1} {
+			vg := verdictOf(g.Bytes, shift)
+			if shift == 1 && vg.ok && vg.docmod == model.False {
+				baselineOK["forged-genuine"]++
+			}
+			// K on the genuine document: no eContent
+			if vg.ok && vg.si.Arr != nil {
+				r.Case("docModifiedP7", []string{vh.Hex(D), "false", "true", "", vh.Int(int64(len(g.Bytes))), vh.Hex(g.Bytes),
+					ints64(vg.si.Arr), contentsArg(vg.si.Contents), vh.Int(int64(vg.si.Increment)), "false"}, triS(vg.docmod))
+			}
+			// (a) the originally signed bytes as eContent, a different page payload in the file
+			if forgedCMS, err := synth.InjectContent(cms, D); err == nil {
+				f, err := synth.Build(s, synth.Options{Payload: randPayload(5 + r.Rand.Intn(30)), SubFilter: sub,
+					FixedCMS: forgedCMS, ExtraObjs: r.Rand.Intn(2)})
+				if err == nil {
+					forgedCheck("signed-bytes-as-econtent", vg, f.Bytes, shift, D, D, true)
+				}
+			}
+			// (b) SHA-1 of the forged signed-range bytes as eContent (adbe.pkcs7.sha1 style)
+			probe := bytes.Repeat([]byte{0x5a}, 20)
+			if forgedCMS, err := synth.InjectContent(cms, probe); err == nil {
+				opt := synth.Options{Payload: randPayload(5 + r.Rand.Intn(30)), SubFilter: sub, FixedCMS: forgedCMS}
+				if f, err := synth.Build(s, opt); err == nil {
+					// two passes: the digest of the final signed-range bytes goes into the eContent (same length)
+					h := sha1.Sum(synth.Lenient(f.Bytes, f.ByteRange))
+					fc, _ := synth.InjectContent(cms, h[:])
+					hx := strings.ToUpper(hex.EncodeToString(fc))
+					b := append([]byte{}, f.Bytes...)
+					copy(b[f.GapStart+1:], hx)
+					forgedCheck("sha1-of-forged-bytes-as-econtent", vg, b, shift, D, h[:], true)
+				}
+			}
+		}
+	}
+	if baselineOK["forged-genuine"] == 0 {
+		r.OracleFail("c27-harness-baseline-never-unmodified", map[string]any{"what": "genuine documents of the forged-eContent family"},
+			"no genuine document is reported unmodified: the forged-eContent oracle would be vacuous")
+	}
+	// the shipped samples' CMS, given the sample's signed bytes as eContent, inside a synthesised shell
+	repo := os.Getenv("VERIF_REPO")
+	if repo == "" {
+		repo = "/repo"
+	}
+	for _, path := range []string{"pkg/samples/signatures/ETSI.CAdES.detached/testPAdES_BB.pdf", "pkg/samples/signatures/adbe.pkcs7.detached/sample2.pdf"} {
+		b, err := os.ReadFile(filepath.Join(repo, path))
+		if err != nil {
+			continue
+		}
+		label := filepath.Base(path)
+		for _, shift := range []int{0, 1} {
+			vg := verdictOf(b, shift)
+			if !vg.ok || len(vg.si.Arr) != 4 || vg.si.Contents == nil || vg.si.Result == nil {
+				r.Count("e2e:forged-econtent-sample-unusable " + label)
+				continue
+			}
+			D := synth.Lenient(b, vg.si.Arr)
+			cms, err := hex.DecodeString(*vg.si.Contents)
+			if err != nil {
+				continue
+			}
+			forgedCMS, err := synth.InjectContent(cms, D)
+			if err != nil {
+				r.Count("e2e:forged-econtent-sample-not-der " + label)
+				continue
+			}
+			f, err := synth.Build(s, synth.Options{Payload: randPayload(20), SubFilter: vg.si.Result.Details.SubFilter, FixedCMS: forgedCMS})
+			if err != nil {
+				continue
+			}
+			forgedCheck("sample-cms-with-econtent "+label, vg, f.Bytes, shift, D, D, shift == 1)
+		}
+	}
+}
+
 func e2eSamples() {
 	repo := os.Getenv("VERIF_REPO")
 	if repo == "" {
@@ -501,5 +666,6 @@ func main() {
 		panic(err)
 	}
 	e2eSynth(s)
+	e2eForgedContent(s)
 	e2eSamples()
 }
